@@ -1,6 +1,7 @@
 """C03 — size-limited encoding: all buffer writes go through the size-guarded writer; offset rewinds
 are paired with a buffer truncate; TC/count dataflow; limit selection per protocol."""
 import re
+import argnames
 import helpers
 from api import shorten, writers, Site
 
@@ -220,3 +221,8 @@ def run(cx):
 
     # ---------------------------------------------------------------- H helper semantics the guards above rely on (rules/helpers.py)
     helpers.check(cx, 'C03.H', ['Edns::max_payload'])
+
+    # ---------------------------------------------------------------- N1 argument names agree with the parameters they are bound to (engine/argnames.py)
+    argnames.check(cx, 'C03.N1', r'hickory_proto::op::message|hickory_server::zone_handler::message_response|hickory_server::server::response_handler|hickory_proto::serialize::binary::encoder', floor=50)
+    argnames.check_fields(cx, 'C03.N1', r'hickory_proto::op::message|hickory_server::zone_handler::message_response|hickory_server::server::response_handler|hickory_proto::serialize::binary::encoder', floor=33)
+
